@@ -269,7 +269,22 @@ func parseEdge(s string) (Edge, bool) {
 	if len(parts) != 3 {
 		return Edge{}, false
 	}
-	return Edge{From: parts[0], Act: json.RawMessage(parts[1]), To: parts[2]}, true
+	return Edge{From: canon(parts[0]), Act: json.RawMessage(parts[1]), To: canon(parts[2])}, true
+}
+
+// canon re-marshals a JSON document with sorted object keys: TLC's ToJson
+// prints record fields in construction order, so equal states can differ
+// textually.
+func canon(s string) string {
+	var v any
+	if err := json.Unmarshal([]byte(s), &v); err != nil {
+		return s
+	}
+	out, err := json.Marshal(v)
+	if err != nil {
+		return s
+	}
+	return string(out)
 }
 
 func tail(s string, n int) string {
